@@ -326,6 +326,9 @@ func play(t *rapid.T, s scenario, t0 uint64, first layout, ops []hop, reloadAt m
 			}
 			s.apply(t, lay, false)
 		}
+		if op.kind == 1 && op.res != "a" {
+			op.kind = 0 // only entries of a are held: what is "the oldest held entry" must not depend on other resources' (active) rules
+		}
 		switch op.kind {
 		case 0, 1:
 			hx.C.TakeSlept()
@@ -393,7 +396,7 @@ func drawOps(t *rapid.T, s scenario) []hop {
 
 // TestReloadInvisible: trace(H with reloads of lists that contain a fresh copy of r) == trace(H without reloads).
 func TestReloadInvisible(t *testing.T) {
-	hx.Check(t, hx.N{Quick: 3000, Thorough: 20000}, func(t *rapid.T, c *hx.Case) {
+	hx.Check(t, hx.N{Quick: 15000, Thorough: 160000}, func(t *rapid.T, c *hx.Case) {
 		s := drawScenario(t, c)
 		t0 := hx.Epoch + uint64(rapid.IntRange(0, 999).Draw(t, "t0"))
 		exP18 := hx.Known("P18")
@@ -454,7 +457,7 @@ func TestReloadInvisible(t *testing.T) {
 
 // TestModifiedRuleKeepsStatistics: r' = r with a non-statistic field changed keeps the accumulated statistics.
 func TestModifiedRuleKeepsStatistics(t *testing.T) {
-	hx.Check(t, hx.N{Quick: 1500, Thorough: 10000}, func(t *rapid.T, c *hx.Case) {
+	hx.Check(t, hx.N{Quick: 7500, Thorough: 80000}, func(t *rapid.T, c *hx.Case) {
 		t0 := hx.Epoch + uint64(rapid.IntRange(0, 999).Draw(t, "t0"))
 		hx.Reset(t0)
 		switch rapid.IntRange(0, 2).Draw(t, "module") {
